@@ -20,12 +20,12 @@ theorem imp_of_bool {a b : Bool} (h : (!a || b) = true) (ha : a = true) : b = tr
 def forallCfg (p : Cfg → Bool) : Bool :=
   forallB fun a1 => forallB fun a2 => forallB fun a3 => forallB fun a4 => forallB fun a5 =>
   forallB fun a6 => forallB fun a7 => forallB fun a8 => forallB fun a9 => forallB fun a10 =>
-    p ⟨a1, a2, a3, a4, a5, a6, a7, a8, a9, a10⟩
+  forallB fun a11 => p ⟨a1, a2, a3, a4, a5, a6, a7, a8, a9, a10, a11⟩
 
 theorem forallCfg_spec {p : Cfg → Bool} (h : forallCfg p = true) (c : Cfg) : p c = true := by
-  obtain ⟨a1, a2, a3, a4, a5, a6, a7, a8, a9, a10⟩ := c
+  obtain ⟨a1, a2, a3, a4, a5, a6, a7, a8, a9, a10, a11⟩ := c
   exact forallB_spec (forallB_spec (forallB_spec (forallB_spec (forallB_spec (forallB_spec (forallB_spec
-    (forallB_spec (forallB_spec (forallB_spec h a1) a2) a3) a4) a5) a6) a7) a8) a9) a10
+    (forallB_spec (forallB_spec (forallB_spec (forallB_spec h a1) a2) a3) a4) a5) a6) a7) a8) a9) a10) a11
 
 /-! ## known_hosts -/
 
@@ -201,7 +201,8 @@ theorem runFrom_stop (lib : Lib) (c : Cfg) (s : St) (calls : List (Call × Bool)
 
 /-- STATIC check of a call order: going through `open()`'s calls, has the key VALUE been verified
     (`v`) / the host been seen present (`p`) when a call that carries credentials is reached?
-    `authenticate` needs `v`; `connect` needs `v` or the expected key pinned into the call;
+    `authenticate` needs `v`; `connect` needs `v` or the expected key pinned into the call with no
+    way to end up unpinned (`fallback = false`);
     `_verify_key_value` needs the presence check before it (else `{}["public_key"]` is a KeyError);
     and some verification must happen at all. -/
 def safeFrom : Bool → Bool → List (Call × Bool) → Bool
@@ -211,7 +212,7 @@ def safeFrom : Bool → Bool → List (Call × Bool) → Bool
   | _, _, (.verifyKey, _) :: r => safeFrom true true r
   | v, _, (.verifyPresent, _) :: r => safeFrom v true r
   | _, p, (.verifyValue, _) :: r => p && safeFrom true p r
-  | v, p, (.connect pin, _) :: r => (v || pin) && safeFrom (v || pin) p r
+  | v, p, (.connect pin fb, _) :: r => (v || (pin && !fb)) && safeFrom (v || (pin && !fb)) p r
   | v, p, (.authenticate, _) :: r => v && safeFrom v p r
 
 def safeOrder (calls : List (Call × Bool)) : Bool := safeFrom false false calls
@@ -290,26 +291,30 @@ theorem order_protects_aux (lib : Lib) (c : Cfg) (hs : c.strict = true) (hk : c.
       have : stepCall lib c s Call.verifyValue = s.raise [Ev.lookup true false, Ev.verifyFail] Exc.authenticationFailed := by
         simp [stepCall, hf, he]
       rw [this]; exact raise_done lib c s _ rest hn rfl
-    | connect pin =>
-      simp only [safeFrom, Bool.false_or, Bool.and_eq_true] at hsafe
-      have hpin : pin = true := hsafe.1
-      subst hpin
+    | connect pin fb =>
+      simp only [safeFrom, Bool.false_or, Bool.and_eq_true, Bool.not_eq_true'] at hsafe
+      obtain ⟨⟨hpin, hfb⟩, _⟩ := hsafe
+      subst hpin; subst hfb
       by_cases hf : c.found = true
       · have he : c.equal = false := by rcases hu with h | h; simp [hf] at h; exact h
-        have hkl : (c.hasKey && !c.keyLoads) = false := by
-          cases hh : c.hasKey <;> simp [hl, hh]
-        have : stepCall lib c s (Call.connect true) =
-            (s.emit [Ev.lookup true false]).raise [Ev.kex, Ev.verifyFail] Exc.authenticationFailed := by
-          simp [stepCall, asyncsshConnect, hs, hf, he, hkl, hk]
-        rw [this]
-        exact raise_done lib c _ _ rest (noOffers_emit hn rfl)
-          rfl
-      · have : stepCall lib c s (Call.connect true) =
+        by_cases hi : c.importable = true
+        · have hkl : (c.hasKey && !c.keyLoads) = false := by
+            cases hh : c.hasKey <;> simp [hl, hh]
+          have : stepCall lib c s (Call.connect true false) =
+              (s.emit [Ev.lookup true false]).raise [Ev.kex, Ev.verifyFail] Exc.authenticationFailed := by
+            simp [stepCall, asyncsshConnect, hs, hf, he, hi, hkl, hk]
+          rw [this]
+          exact raise_done lib c _ _ rest (noOffers_emit hn rfl) rfl
+        · have : stepCall lib c s (Call.connect true false) =
+              (s.emit [Ev.lookup true false]).raise [] Exc.authenticationFailed := by
+            simp [stepCall, asyncsshConnect, hs, hf, he, hi]
+          rw [this]
+          exact raise_done lib c _ _ rest (noOffers_emit hn rfl) rfl
+      · have : stepCall lib c s (Call.connect true false) =
             (s.emit [Ev.lookup false false]).raise [] Exc.authenticationFailed := by
           simp [stepCall, asyncsshConnect, hs, hf]
         rw [this]
-        exact raise_done lib c _ _ rest (noOffers_emit hn rfl)
-          rfl
+        exact raise_done lib c _ _ rest (noOffers_emit hn rfl) rfl
     | authenticate =>
       simp [safeFrom] at hsafe
 
